@@ -12,9 +12,11 @@ _cache: dict = {}
 
 
 def _ref_for(graph):
-    """RG of the graph, cached per object while its edge counts stay the same."""
+    """RG of the graph, cached per object while its node and edge SETS stay the same (a count-based signature would
+    survive a rewiring that moves an edge - the monitor would then judge against the graph as it was)."""
     key = id(graph)
-    sig = (graph.directed.number_of_nodes(), graph.directed.number_of_edges(), graph.undirected.number_of_edges())
+    sig = (frozenset(graph.directed.nodes()) | frozenset(graph.undirected.nodes()), frozenset(graph.directed.edges()),
+           frozenset(frozenset(e) for e in graph.undirected.edges()))
     hit = _cache.get(key)
     if hit is not None and hit[0] == sig and hit[1] is graph:
         return hit[2]
